@@ -107,9 +107,19 @@ class DSDLDefinition(ReadableDSDLFile):
                 else:
                     return path_to_root_resolved
 
-        # INFERENCE 3: If the target is relative then we can try to find a valid root by looking for the file in the
+        # INFERENCE 3: A weaker, but valid inference is when the target path is a child of a known root folder name.
+        # This is only allowed if dsdl roots are top-level namespace names and not paths.
+        root_parts = [x.parts[-1] for x in valid_dsdl_roots if len(x.parts) == 1]
+        parts = list(dsdl_path.parent.parts)
+        for i, part in list(enumerate(parts)):
+            if part in root_parts:
+                return Path().joinpath(*parts[: i + 1])
+                # +1 to include the root folder
+
+        # INFERENCE 4: If the target is relative then we can try to find a valid root by looking for the file in the
         # root directories. This is a stronger inference than the previous one because it requires the file to exist
-        # but we do it second because it reads the filesystem.
+        # but we do it last because it reads the filesystem and because an ancestor of a root may happen to be
+        # named like the first component of a target that is given relative to the working directory.
         if not dsdl_path.is_absolute():
             for path_to_root in valid_dsdl_roots:
                 path_to_root_parent = path_to_root
@@ -126,14 +136,6 @@ class DSDLDefinition(ReadableDSDLFile):
                         return path_to_root_parent
                     path_to_root_parent = path_to_root_parent.parent
 
-        # INFERENCE 4: A weaker, but valid inference is when the target path is a child of a known root folder name.
-        # This is only allowed if dsdl roots are top-level namespace names and not paths.
-        root_parts = [x.parts[-1] for x in valid_dsdl_roots if len(x.parts) == 1]
-        parts = list(dsdl_path.parent.parts)
-        for i, part in list(enumerate(parts)):
-            if part in root_parts:
-                return Path().joinpath(*parts[: i + 1])
-                # +1 to include the root folder
         raise PathInferenceError(f"No valid root found in path {str(dsdl_path)}", dsdl_path, valid_dsdl_roots)
 
     @classmethod
